@@ -3,6 +3,7 @@ package main
 // Running the seven generators on an analysis, each with its panic recovered and classified.
 
 import (
+	"encoding/json"
 	"fmt"
 	"path/filepath"
 	"sort"
@@ -59,6 +60,7 @@ func init() {
 		if want["tables"] {
 			out := runGen(func() string { return coqTableFacts(pkg, an) })
 			res.Gen["tables"] = out
+			res.Gen["tables_json"] = runGen(func() string { return jsonTableFacts(an) })
 		}
 		if all || want["dart"] {
 			// the root directory as LoadSources computes it for a single file
@@ -111,4 +113,51 @@ func coqTableFacts(pkg *packages.Package, an *analysis.Analysis) string {
 			coqStr(string(ta.TableName())), coqList(cols), prim, coqStr(idt), coqList(fks), group(ta.AdditionalUniqueCols()), group(ta.SelectKeys())))
 	}
 	return coqListNL(items)
+}
+
+// jsonTableFacts: the same facts for the C05 oracle binary
+func jsonTableFacts(an *analysis.Analysis) string {
+	type fk struct {
+		Field    string
+		Nullable bool
+		Unique   bool
+	}
+	type tbl struct {
+		Name    string
+		Primary string
+		Columns []string
+		FKs     []fk
+		Uniques [][]string
+		Keys    [][]string
+	}
+	var out []tbl
+	for _, ta := range asqlpkg.SelectTables(an) {
+		t := tbl{Name: string(ta.TableName())}
+		for _, c := range ta.Columns {
+			if _, g := c.Field.IsSQLGuard(); !g {
+				t.Columns = append(t.Columns, c.Field.Field.Name())
+			}
+		}
+		if p := ta.Primary(); p >= 0 {
+			t.Primary = ta.Columns[p].Field.Field.Name()
+		}
+		for _, k := range ta.ForeignKeys() {
+			t.FKs = append(t.FKs, fk{k.F.Field.Name(), k.IsNullable(), k.IsUnique})
+		}
+		names := func(gs [][]asqlpkg.Column) [][]string {
+			var o [][]string
+			for _, g := range gs {
+				var n []string
+				for _, c := range g {
+					n = append(n, c.Field.Field.Name())
+				}
+				o = append(o, n)
+			}
+			return o
+		}
+		t.Uniques, t.Keys = names(ta.AdditionalUniqueCols()), names(ta.SelectKeys())
+		out = append(out, t)
+	}
+	b, _ := json.Marshal(out)
+	return string(b)
 }
